@@ -244,6 +244,9 @@ func vParam(name string, def int) int {
 	return def
 }
 func vEngine() bool { return false }
+
+// vTapeRewind: serve the same source bytes again from the start.
+func vTapeRewind() { vTapePos = 0 }
 func vOr(a, b bool) bool  { return a || b }
 func vAnd(a, b bool) bool { return a && b }
 
